@@ -196,6 +196,10 @@ pub fn print_verbose_tree<'value>(root: &EventRecord<'value>, writer: &mut Write
 // Err = the serde error that `?` propagates. ASSUMPTION: writing to the output does not fail (the real code panics there)
 #[verifier::external_body]
 pub fn verif_write_json<'value>(writer: &mut Writer, root: &EventRecord<'value>) -> (r: Result<()>) { unimplemented!() }
+
+// stands for #[derive(Debug)] of rules::errors::Error (needed by Result::unwrap in a fragment)
+#[verifier::external]
+impl std::fmt::Debug for Error { fn fmt(&self, _f: &mut std::fmt::Formatter<'_>) -> std::fmt::Result { Ok(()) } }
 // ---- fn guard/src/commands/validate.rs::evaluate_against_data_input
 fn evaluate_against_data_input<'r>(
     _data_type: Type,
@@ -270,6 +274,21 @@ fn evaluate_against_data_input__canary<'r>(
     mut write_output: &mut Writer,
 ) -> (res: Result<Status>)
 { assert(false); vstd::pervasive::unreached() }
+// ---- fn guard/src/commands/reporters/validate/structured.rs::evaluate fragment #0 (R16)
+fn verif_fragment_evaluate_0(input_params: &Option<PathAwareValue>, file: &DataFile) -> (res: Result<PathAwareValue>)
+    ensures
+        // no precondition: for every input-parameter payload and data file the statement must not panic;
+        // a failing merge (a key defined twice) is an error of the run (C17), not an abort
+        *input_params is None ==> res == Ok::<PathAwareValue, Error>(file.path_value),
+        *input_params matches Some(d) ==> (res is Ok ==> res->Ok_0 == merged(d, file.path_value) || res->Ok_0 == merged(file.path_value, d)),
+{
+    
+    let each = match &input_params {
+                    Some(data) => data.clone().merge(file.path_value.clone())?,
+                    None => file.path_value.clone(),
+                };
+    Ok(each)
+}
 // ---- fn guard/src/commands/validate.rs::execute fragment #0 (R16)
 fn verif_fragment_execute_0(primary_in: Option<PathAwareValue>, path_value: PathAwareValue) -> (res: Result<Option<PathAwareValue>>)
     ensures
